@@ -249,12 +249,18 @@ def gen_specs(tier, seed):
         ["assign", "arr", V("i"), V("i"), [["i", C(0), ["attr:size", V("v")]]], True],
         ["call", ["a"], "<func>f", [["attr:real", V("z")]], {"k": ["attr:size", V("v")]}, True],
         ["yield", ["attr:real", V("z")], "y", ["attr:real", V("<t>")], "final", True],
+        # two-dimensional subscripts (tuple index) outside the left-hand side
+        ["assign", "a", None, ["+", ["sub", V("m"), V("i"), V("j")], C(1)], [], True],
+        ["assign", "a", None, V("b"), [], ["cmp", "<", ["sub", V("m"), V("p"), V("q")], C(0)]],
+        ["assign", "arr", V("i"), C(0), [["i", C(0), ["sub", V("m"), V("p"), V("q")]]], True],
+        ["call", ["a"], "<func>f", [["sub", V("m"), V("i"), V("j")]], {"k": ["sub", V("m"), V("p"), C(0)]}, True],
+        ["yield", ["sub", V("m"), V("i"), V("j")], "y", V("<t>"), "final", True],
     ]
     ncur = len(specs)
     nrand = 600 if tier == "quick" else 60000
     g = exprdsl.Gen(rng, vars_num=["a", "b", "c", "d"], vars_bool=["<cond>c", "<cond>d"],
                     consts=(0, 1, 2, -1), funcs=FUNCS, arrays=("v", "w"), kwnames=("k", "m"),
-                    ops=["+", "*", "/", "**", "cmp", "not", "and", "or", "if", "min", "max", "call", "callkw", "sub", "attr"])
+                    ops=["+", "*", "/", "**", "cmp", "not", "and", "or", "if", "min", "max", "call", "callkw", "sub", "attr", "sub2"])
     gi = exprdsl.Gen(rng, vars_num=["j", "k", "i"], consts=(0, 1, 2), funcs=(), ops=["+"])
     for _ in range(nrand):
         depth = rng.choice([1, 2, 2, 3])
